@@ -97,9 +97,14 @@ def _run_range(exe, mode, seed, tier, first, count, env, stack_mb, timeout, extr
         err = err.decode("utf-8", "replace")
         started, done = None, None
         cpu_case = None
+        last_ctx = ""
         for line in out.splitlines():
+            if line.startswith("@ctx "):
+                last_ctx = line[5:].strip()
+                continue
             if line.startswith("@case "):
                 started = int(line[6:])
+                last_ctx = ""
             elif line.startswith("@done "):
                 done = int(line[6:])
             elif line.startswith("@cpu "):
@@ -150,6 +155,10 @@ def _run_range(exe, mode, seed, tier, first, count, env, stack_mb, timeout, extr
                 crashes.append({"case": first, "kind": "leak", "func": func, "rc": rc, "summary": summ,
                                 "stderr": err[-6000:]})
             break
+        if last_ctx and func is None:
+            # no library frame to key on (budget overrun, bare signal): key on what the driver was doing
+            func = "during " + re.sub(r"@\d+", "", last_ctx)
+            summ = (summ + " | last context: " + last_ctx)[:400]
         crashes.append({"case": victim, "kind": kind, "func": func, "rc": rc, "summary": summ,
                         "stderr": err[-6000:]})
         if victim is None:
